@@ -222,6 +222,31 @@ def c05_interleaved(task):
     return {"cov": cov, "viol": viol}
 
 
+def c05_long(task):
+    """Large rows: long recordings (hundreds of windows), large window counts."""
+    sw, ch, W, rate = task
+    from .chk_tok import long_streams
+
+    cov = {"evaluations": 0, "distinct_nontrivial": 0, "large_rows_not_exhaustive": 0, "samples": []}
+    viol = []
+    aw = Decimal(W) / Decimal(rate)
+    for flags in long_streams(400)[::2]:
+        for (mn, mx, ms, mode) in ((1, 17, 3, 0), (5, 64, 10, 4), (16, 33, 0, 2), (2, 100, 16, 6), (1, 3, 2, 0)):
+            cov["evaluations"] += 1
+            cov["large_rows_not_exhaustive"] += 1
+            msg = c05_case(sw, ch, rate, W, aw, flags, W - 1 if W > 1 else 0, True, mn, mx, ms, mode, as_region=cov["evaluations"] % 3)
+            if any(flags):
+                cov["distinct_nontrivial"] += 1
+            if msg and len(viol) < 4:
+                key = "split-long sw=%d ch=%d rate=%d W=%d pattern=%s...(%d windows) tuple=%d,%d,%d,%d" % (
+                    sw, ch, rate, W, tm.show(flags[:20]), len(flags), mn, mx, ms, mode)
+                viol.append((key, msg, {"kind": "c05", "sw": sw, "ch": ch, "rate": rate, "W": W, "aw": str(aw), "flags": tm.show(flags),
+                                        "tail": W - 1 if W > 1 else 0, "tail_flag": True, "tuple": [mn, mx, ms, mode],
+                                        "as_region": cov["evaluations"] % 3}))
+    cov["samples"].append({"long_recordings_windows": 400, "sw": sw, "ch": ch, "samples_per_window": W})
+    return {"cov": cov, "viol": viol}
+
+
 def tuples_g3():
     out = []
     for mx in (1, 2, 3):
@@ -726,6 +751,7 @@ def run(prop, tier):
         ipats = ["", "A", "aA", "AaA", "AAAA", "aAAaA", "AAaaAA"] + ([] if quick else ["AaAaA", "AAAAAAA"])
         itup = [(1, 1, 0, 0), (1, 2, 0, 0), (2, 3, 1, 0), (1, 3, 1, 4), (2, 2, 0, 2), (1, 3, 2, 6)]
         itasks = [("i", (ipats, [t])) for t in itup]
+        itasks += [("l", t) for t in ((2, 1, 4, 16000), (1, 2, 8, 8000), (4, 3, 2, 16), (2, 2, 16, 44100))]
         for part in common.pmap(_c05_dispatch, [("w", t) for t in tasks] + itasks):
             rep.merge(part)
     elif prop == "C06":
@@ -791,6 +817,8 @@ def run(prop, tier):
 
 
 def _c05_dispatch(t):
+    if t[0] == "l":
+        return c05_long(t[1])
     return c05_work(t[1]) if t[0] == "w" else c05_interleaved(t[1])
 
 
